@@ -321,6 +321,21 @@ func run(pkgs map[string]Package, sc *Scenario) (res Result) {
 			}
 		}
 		for _, op := range sc.Union.Ops {
+			if strings.HasPrefix(op.Method, "set:") { // assign a field of the union struct (its own fixed properties)
+				f := u.Elem().FieldByName(strings.TrimPrefix(op.Method, "set:"))
+				if !f.IsValid() || !f.CanSet() {
+					res.Out = append(res.Out, Encode(map[string]string{"error": "no such field " + op.Method}))
+					continue
+				}
+				nv := reflect.New(f.Type())
+				if err := json.Unmarshal(op.Arg, nv.Interface()); err != nil {
+					res.Out = append(res.Out, Encode(map[string]string{"error": "set: " + err.Error()}))
+					continue
+				}
+				f.Set(nv.Elem())
+				res.Out = append(res.Out, Encode(map[string]any{"set": true}))
+				continue
+			}
 			if op.Method == "MarshalJSON" {
 				b, err := json.Marshal(u.Interface())
 				if err != nil {
